@@ -2919,6 +2919,135 @@ fn round_blockpair(seed: u64, hb: &Heartbeat, tot: &Mutex<Tot>, prop: &str) {
 }
 
 // ---------------------------------------------------------------------------------------------
+// poolfull: the documented way to use the blocking API from async code is spawn_blocking. Here the caller's runtime has a
+// small blocking pool (max_blocking_threads = n) and exactly n callers sit in it at once. Whatever the crate needs in order to
+// serve them (helper threads, cleanup work) must not be queued behind those very callers:
+//   A  n timed blocking asks/tells to an idle live actor: all answered at once;
+//   B  n untimed blocking asks queued at a busy actor, then the actor is killed: all fail promptly (C03);
+//   C  after a long streak of FAILED timed blocking calls (dead target, expiring timeouts) the next call to an idle actor is
+//      served as if nothing had happened - failures leave nothing behind (C10: Timeout iff the deadline passed).
+// ---------------------------------------------------------------------------------------------
+fn round_poolfull(seed: u64, hb: &Heartbeat, tot: &Mutex<Tot>, prop: &str) {
+    use ab::*;
+    let mut r = Rng::new(seed);
+    let n = [1usize, 2, 2, 4][r.below(4) as usize];
+    let variant = r.below(3);
+    let rt = tokio::runtime::Builder::new_multi_thread().worker_threads(2).max_blocking_threads(n).enable_time().build().unwrap();
+    let bucket0 = hb.now_bucket();
+    let handled = Arc::new(AtomicU64::new(0));
+    let (a, ajh, dead) = rt.block_on(async {
+        let (a, ajh) = rsactor::spawn_with_mailbox_capacity::<A>(Args { handled: handled.clone(), start_ms: 0, ticks: false }, 16);
+        let (d, djh) = rsactor::spawn::<A>(Args { handled: Arc::new(AtomicU64::new(0)), start_ms: 0, ticks: false });
+        let _ = d.stop().await;
+        let _ = djh.await;
+        (a, ajh, d)
+    });
+    let sem = Arc::new(tokio::sync::Semaphore::new(0));
+    let mut v: Vec<(&str, &str, &str, String)> = vec![]; // (C03, C10, C17 clause, msg)
+    let mut obl = 0u64;
+    if variant == 2 {
+        // C: the streak, from a plain thread (nothing to do with the pool)
+        let fails = 70 + r.below(30);
+        for i in 0..fails {
+            let res = if i % 2 == 0 { dead.blocking_ask(Work(1, 0), Some(Duration::from_millis(200))).map(|_| ()) } else { dead.blocking_tell(Work(1, 0), Some(Duration::from_millis(200))) };
+            if res.is_ok() {
+                v.push(("C03.after_end", "C10.timeout_iff", "C17.dead_actor", format!("[poolfull] timed blocking call #{i} to an ended actor returned Ok")));
+                break;
+            }
+        }
+        let t = Instant::now();
+        let r1 = a.blocking_ask(Work(4, 0), Some(Duration::from_secs(3)));
+        let e1 = t.elapsed();
+        let r2 = a.blocking_tell(Work(5, 0), Some(Duration::from_secs(3)));
+        obl += 2;
+        let stalled = hb.max_late_since(bucket0) > STALL_US;
+        if !matches!(r1, Ok(4)) || r2.is_err() || (e1 > Duration::from_millis(1500) && !stalled) {
+            v.push(("C03.integrity", "C10.timeout_iff", "C17.same_rules", format!("[poolfull] after {fails} failed timed blocking calls to an ended actor, blocking_ask(Some(3 s)) to an idle live actor returned {r1:?} after {e1:?} and blocking_tell(Some(3 s)) returned {r2:?} (expected Ok(4) and Ok(()) at once)")));
+        }
+    } else {
+        if variant == 1 {
+            // B: make the actor busy first
+            let _ = rt.block_on(a.tell(Park(sem.clone())));
+            let t0 = Instant::now();
+            while handled.load(Ordering::SeqCst) == 0 && t0.elapsed() < Duration::from_secs(5) {
+                std::thread::sleep(Duration::from_millis(1));
+            }
+        }
+        let barrier = Arc::new(std::sync::Barrier::new(n + 1));
+        let (tx, rx) = std::sync::mpsc::channel();
+        for k in 0..n {
+            let (a, barrier, tx) = (a.clone(), barrier.clone(), tx.clone());
+            let tell = variant == 0 && k % 2 == 1;
+            rt.spawn_blocking(move || {
+                barrier.wait();
+                let t = Instant::now();
+                let res: Result<u64, String> = if variant == 1 {
+                    a.blocking_ask(Work(k as u64, 0), None).map_err(|e| format!("{e:?}"))
+                } else if tell {
+                    a.blocking_tell(Work(k as u64, 0), Some(Duration::from_millis(800))).map(|_| k as u64).map_err(|e| format!("{e:?}"))
+                } else {
+                    a.blocking_ask(Work(k as u64, 0), Some(Duration::from_millis(800))).map_err(|e| format!("{e:?}"))
+                };
+                let _ = tx.send((k, res, t.elapsed()));
+            });
+        }
+        // every pool thread now holds a caller
+        barrier.wait();
+        if variant == 1 {
+            std::thread::sleep(Duration::from_millis(20));
+            let _ = a.kill();
+            sem.add_permits(8);
+        }
+        let mut got = 0usize;
+        let t0 = Instant::now();
+        while got < n && t0.elapsed() < Duration::from_secs(6) {
+            if let Ok((k, res, el)) = rx.recv_timeout(Duration::from_millis(100)) {
+                got += 1;
+                obl += 1;
+                match (variant, &res) {
+                    (0, Ok(x)) if *x == k as u64 => {}
+                    (1, Err(_)) => {}
+                    // B: an ask that was dequeued before the kill took effect may legitimately have been answered
+                    (1, Ok(x)) if *x == k as u64 => {}
+                    _ => v.push(("C03.integrity", "C10.timeout_iff", "C17.same_rules", format!("[poolfull] caller {k} of {n} (all inside spawn_blocking on a runtime with max_blocking_threads = {n}): {} returned {res:?} after {el:?}", if variant == 1 { "blocking_ask(None) queued at a busy actor that was then killed" } else { "a timed blocking call (800 ms) to an idle live actor" }))),
+                }
+            }
+        }
+        let stalled = hb.max_late_since(bucket0) > STALL_US;
+        if got < n && !stalled {
+            v.push(("C03.complete", "C10.late", "C17.deadline", format!("[poolfull] {} of {n} callers - every thread of the runtime's blocking pool (max_blocking_threads = {n}) holds one - had not returned after 6 s: {}", n - got, if variant == 1 { "blocking_ask(None) calls queued at an actor that has been killed (its JoinHandle is resolved) are still waiting" } else { "timed blocking calls (800 ms) to an idle live actor" })));
+        }
+    }
+    let stalled = hb.max_late_since(bucket0) > STALL_US;
+    let _ = a.kill();
+    sem.add_permits(8);
+    let _ = rt.block_on(async { tokio::time::timeout(Duration::from_secs(5), ajh).await });
+    rt.shutdown_timeout(Duration::from_secs(2));
+    let mut t = tot.lock().unwrap();
+    t.rounds += 1;
+    t.hashes.insert(mix(variant * 8 + n as u64, 0));
+    for p in ["C03", "C10", "C17"] {
+        *t.nontrivial.entry(p.into()).or_default() += 1;
+    }
+    *t.obl.entry("C03.complete").or_default() += obl;
+    *t.obl.entry("C17.deadline").or_default() += obl;
+    *t.obl.entry("C10.timeout_iff").or_default() += obl;
+    if stalled && !v.is_empty() {
+        t.inconclusive.push(format!("poolfull round {seed}: machine stalled"));
+        return;
+    }
+    for (c3, c10, c17, m) in v {
+        let c = match prop {
+            "C03" => c3,
+            "C10" => c10,
+            "C17" | "all" => c17,
+            _ => continue,
+        };
+        t.viol.push((c.into(), m, seed, "poolfull".into()));
+    }
+}
+
+// ---------------------------------------------------------------------------------------------
 // lastslot: several senders on different worker threads go for the last free slot(s) of a mailbox at the same instant with
 // tell_with_timeout, while the actor is parked in a handler for longer than the timeout. Exactly as many as there are free
 // slots succeed at once; the others WAIT (C09) and come back with Timeout at their deadline - not earlier, not with another
@@ -4139,6 +4268,16 @@ pub fn cmd_mt(a: &Args) -> i32 {
                     }
                 }
             }
+            "poolfull" => {
+                let mut n = 0u64;
+                while tp.elapsed() < per_profile {
+                    n += 1;
+                    round_poolfull(mix(base, ((pi as u64) << 56) ^ n), &hb, &tot, &prop);
+                    if tot.lock().unwrap().viol.len() > 3 {
+                        break;
+                    }
+                }
+            }
             "blockpair" => {
                 let mut n = 0u64;
                 while tp.elapsed() < per_profile {
@@ -4265,7 +4404,7 @@ pub fn cmd_mt(a: &Args) -> i32 {
     #[cfg(feature = "f_testutils")]
     {
         let d = rsactor::dead_letter_count() - dl0;
-        if !tainted.load(Ordering::Relaxed) && profiles.iter().all(|p| p != "spawnstorm" && p != "tightrace" && p != "starve" && p != "mutualask" && p != "abort" && p != "reentrant" && p != "dropspin" && p != "metricsrace" && p != "undriven" && p != "dlrace" && p != "dropsend" && p != "lastslot" && p != "hookblocking" && p != "bigmsg" && p != "nest" && p != "killstorm" && p != "blockpair") {
+        if !tainted.load(Ordering::Relaxed) && profiles.iter().all(|p| p != "spawnstorm" && p != "tightrace" && p != "starve" && p != "mutualask" && p != "abort" && p != "reentrant" && p != "dropspin" && p != "metricsrace" && p != "undriven" && p != "dlrace" && p != "dropsend" && p != "lastslot" && p != "hookblocking" && p != "bigmsg" && p != "nest" && p != "killstorm" && p != "blockpair" && p != "poolfull") {
             *t.obl.entry("C13.counter").or_default() += 1;
             t.extra.insert("dead_letter_count_delta".into(), d);
             let fl = t.failures;
